@@ -180,6 +180,24 @@ func disjointKeySets(a, b *pin) bool {
 	return true
 }
 
+// disjointPins: two pins of one kind that exclude one another on their face -
+// key sets without a common key, prefixes neither of which extends the other,
+// ranges whose closed intervals do not meet.
+func disjointPins(a, b *pin) bool {
+	if a == nil || b == nil || a.Kind != b.Kind {
+		return false
+	}
+	switch a.Kind {
+	case "keys":
+		return disjointKeySets(a, b)
+	case "prefix":
+		return !strings.HasPrefix(a.Pre, b.Pre) && !strings.HasPrefix(b.Pre, a.Pre)
+	case "range":
+		return a.Hi != nil && b.Lo != nil && *a.Hi < *b.Lo || b.Hi != nil && a.Lo != nil && *b.Hi < *a.Lo
+	}
+	return false
+}
+
 type c18Shape struct {
 	pred  *ref.Expr
 	pins  []*pin // one per pinning conjunct
@@ -231,7 +249,7 @@ func c18Shapes() []c18Shape {
 	for _, a := range atoms {
 		for _, b := range atoms {
 			pa, pb := pinOf(a), pinOf(b)
-			out = append(out, c18Shape{pred: ref.Bin("&", a.Clone(), b.Clone()), pins: []*pin{pa, pb}, unsat: disjointKeySets(pa, pb)})
+			out = append(out, c18Shape{pred: ref.Bin("&", a.Clone(), b.Clone()), pins: []*pin{pa, pb}, unsat: disjointPins(pa, pb)})
 		}
 	}
 	for _, u := range c18Unsat() {
@@ -255,7 +273,7 @@ func c18Shapes() []c18Shape {
 		}
 		for _, b := range ea {
 			pa, pb := pinOf(a), pinOf(b)
-			out = append(out, c18Shape{pred: ref.Bin("&", a.Clone(), b.Clone()), pins: []*pin{pa, pb}, unsat: disjointKeySets(pa, pb), edge: true})
+			out = append(out, c18Shape{pred: ref.Bin("&", a.Clone(), b.Clone()), pins: []*pin{pa, pb}, unsat: disjointPins(pa, pb), edge: true})
 		}
 	}
 	c18ShapesCache = out
@@ -486,7 +504,7 @@ func c18ShapeOf(pred *ref.Expr) c18Shape {
 	}
 	for i := range sh.pins {
 		for j := i + 1; j < len(sh.pins); j++ {
-			if disjointKeySets(sh.pins[i], sh.pins[j]) {
+			if disjointPins(sh.pins[i], sh.pins[j]) {
 				sh.unsat = true
 			}
 		}
